@@ -2563,7 +2563,8 @@ class AddPrefixSeries(Elemwise):
 
     @functools.cached_property
     def _meta(self):
-        return super()._meta.set_axis(pd.Index([], dtype="str"))
+        meta = super()._meta
+        return meta.set_axis(pd.Index([], dtype="str", name=meta.index.name))
 
     def _divisions(self):
         return tuple(f"{self.prefix}{division}" for division in self.frame.divisions)
